@@ -3,7 +3,7 @@
 # (never to /repo itself) and run the given quick checks against it via VERIF_REPO. Prints one line per check.
 set -u
 PATCH=$(readlink -f $1); shift
-WT=/tmp/mut/w
+WT=${SEED_WT:-/tmp/mut/w}
 mkdir -p /tmp/mut
 if [ ! -d $WT ]; then git -C /repo worktree add -q --detach $WT HEAD; fi
 git -C $WT checkout -q --detach $(git -C /repo rev-parse HEAD) 2>/dev/null
